@@ -233,6 +233,26 @@ def r9_anchored(ctx, modules, rule='R9', floor=1, name_test_only=True):
         if isinstance(p, ast.Assign) and len(p.targets) == 1:
             holder = pseudo(p.targets[0])
         uses = _pattern_uses(ctx, fi, holder) if holder else []
+        if holder and isinstance(p.value, (ast.ListComp, ast.List, ast.Tuple)):
+            # a list of compiled patterns (possibly of (pattern, x) tuples): follow `for f in <list>` / `for f, _ in <list>`
+            elt = p.value.elt if isinstance(p.value, ast.ListComp) else None
+            pos = 0
+            if isinstance(elt, ast.Tuple):
+                pos = next((i for i, e in enumerate(elt.elts) if c in list(ast.walk(e))), 0)
+            for lp in ast.walk(fi.module.tree):
+                its = []
+                if isinstance(lp, ast.For) and pseudo(lp.iter) == holder:
+                    its.append(lp.target)
+                if isinstance(lp, ast.comprehension) and pseudo(lp.iter) == holder:
+                    its.append(lp.target)
+                for t in its:
+                    nm = None
+                    if isinstance(t, ast.Name):
+                        nm = t.id
+                    elif isinstance(t, ast.Tuple) and pos < len(t.elts) and isinstance(t.elts[pos], ast.Name):
+                        nm = t.elts[pos].id
+                    if nm:
+                        uses.extend(_pattern_uses(ctx, fi, nm))
         test_uses = [(a, x) for a, x in uses if a in ('match', 'search', 'fullmatch')]
         bad = [(a, x) for a, x in test_uses if a != 'fullmatch']
         if holder is None or not test_uses:
